@@ -16,6 +16,7 @@ import VarlinkProofs.Lemmas.GenTop2
 import VarlinkProofs.Lemmas.GenTyped2
 import VarlinkProofs.Lemmas.GenDomain
 import VarlinkProofs.Lemmas.GenImports
+import VarlinkProofs.Lemmas.GenDomain2
 import Varlink.Extracted.Code
 import Varlink.ExpectedCode
 namespace Varlink.C07
@@ -68,7 +69,7 @@ example :
     letters, digits and underscores; it is the interface name in lower case without dots and dashes (`pkgBase`:
     lower-case letters and digits only), with one `_` appended exactly when that is a keyword or `main`.
 
-    Statement before the repairs a32447a / a04eec4 (the generator had no `_` rule):
+    Statement before the repairs 764942c / 2a8a008 (the generator had no `_` rule):
       `isGoIdent (pkgName n) = true ∧ (pkgName n).all (fun c => isLower c || isDigit c) = true`
     Its first conjunct is kept, its second one now holds for `pkgBase` and — see `pkgname_unchanged` — for
     `pkgName` whenever the old generator produced a usable name; it said nothing about keywords and `main`
@@ -184,7 +185,7 @@ example : Domain sample = true := by decide
 /-! ## the emitted file is well-formed -/
 
 /-- **package clause**: the package name is a usable identifier — a Go identifier, no keyword, not `main` — for
-    EVERY description of the domain (before a32447a / a04eec4: only under the hypothesis `pkgNameUsable t`, i.e.
+    EVERY description of the domain (before 764942c / 2a8a008: only under the hypothesis `pkgNameUsable t`, i.e.
     not for `interface i.f`, `interface ma.in`) -/
 theorem gen_pkgOk (t : Idl) (f : GoFile) (h : Domain t = true) (hf : genFile t = some f) : pkgOk f = true := by
   obtain ⟨hp, _, _, _⟩ := pkgname_of_domain t h f hf
@@ -202,7 +203,7 @@ theorem gen_pkgOk (t : Idl) (f : GoFile) (h : Domain t = true) (hf : genFile t =
 
 /-- **imports**: the import paths of the emitted file are distinct and the imported packages are EXACTLY the
     packages its declarations refer to — no unused import, nothing used that is not imported — for every
-    description the generator produces a file for (the domain is not even needed). Before dfa0aa0 this was a
+    description the generator produces a file for (the domain is not even needed). Before 30ae85f this was a
     hypothesis of `gen_wellformed_partial` and false in the domain (`importsExact`, `placeholderSafe`). -/
 theorem gen_importsOk (t : Idl) (f : GoFile) (hf : genFile t = some f) : importsOk f = true :=
   importsOk_genFile t f hf
@@ -345,10 +346,12 @@ theorem copies_out_welltyped (decls : List Decl) (env : Env) (fs : Fields)
     typedStmts decls env (l ++ rest) = typedStmts decls env rest :=
   copyOutStmts_typed decls env fs hc fs l rest (fun _ hx => hx) hl
 
-/-- FULL STATEMENT of "the emitted file passes the checker" (not proved at this strength: `namesResolve`,
-    `methodsOk` and `noCycleOk` are not proved in Lean; every run evaluates them on every generated description
-    and compares with the Go compiler). Before the repairs dfa0aa0 / a32447a / a04eec4 it was FALSE
-    (`fullStatement_fails`: `interface i.f` gave `package if`); that counterexample now passes, see below. -/
+/-- FULL STATEMENT of "the emitted file passes the checker": proved below as `fullStatement_holds` /
+    `gen_wellformed` (all nine sub-checks from the domain alone). History: before the repairs 30ae85f / 764942c /
+    2a8a008 it was FALSE (`fullStatement_fails`: `interface i.f` gave `package if`); until `gen_namesResolve`,
+    `gen_methodsOk` and `gen_noCycleOk` were proved, `namesResolve`, `methodsOk` and `noCycleOk` were hypotheses
+    (`gen_wellformed_partial`). Every run still evaluates `wellFormed` on every generated description and
+    compares with the Go compiler. -/
 def FullStatement : Prop := ∀ (t : Idl) (f : GoFile), Domain t = true → genFile t = some f → wellFormed f = true
 
 /-- **gen_wellformed_partial**: what is proved of `FullStatement`. Proved from the domain alone, for EVERY
@@ -366,6 +369,76 @@ theorem gen_wellformed_partial (t : Idl) (f : GoFile) (h : Domain t = true)
     wellFormed f = true := by
   simp [wellFormed, gen_pkgOk t f h hf, gen_importsOk t f hf, gen_typesOk t f h hf, gen_scopesOk t f h hf,
     gen_topLevelOk t f h hf, gen_typedOk t f h hf, h_names, h_methods, h_cycle]
+
+/-- **names resolve**: every type name the emitted file mentions — in type declarations, signatures, the
+    interface, `var` statements, conversions, function literals — is predeclared (`bool`, `int64`, `float64`,
+    `string`, `uint64`, `error`) or declared by the file (`<Type>`, `<Error>`, `<Method>_methods`, `VarlinkCall`,
+    `VarlinkInterface`, `<pkg>Interface`), and every package qualifier (`json.`, `context.`, `varlink.`) is
+    imported: `refsResolve` of the domain and the exact import list are sufficient -/
+theorem gen_namesResolve (t : Idl) (f : GoFile) (h : Domain t = true) (hf : genFile t = some f) :
+    namesResolve f = true := by
+  obtain ⟨_, _, _, _, h5, _⟩ := domain_parts h
+  exact namesResolve_genFile t f (memberGood_of_domain t h) h5 hf
+
+/-- **method sets**: every receiver type (`<Error>`, `<Method>_methods`, `VarlinkCall`, `VarlinkInterface`) is a
+    declared struct type (never a pointer or interface type); per receiver type the method names are pairwise
+    distinct, valid, and differ from the field names (`Error()` against the error's fields: the domain excludes a
+    field `error`; `Reply<X>` against the embedded `Call`; `<Method>` / `VarlinkDispatch`… against the embedded
+    `<pkg>Interface`); no `Reply<X>` declared on `VarlinkCall` shadows `ReplyError` /
+    `ReplyMethodNotImplemented`, the promoted `varlink.Call` methods the file calls through a `VarlinkCall`
+    (`ReplyInvalidParameter` is only called through a `varlink.Call`, so a method `InvalidParameter` is fine) -/
+theorem gen_methodsOk (t : Idl) (f : GoFile) (h : Domain t = true) (hf : genFile t = some f) :
+    methodsOk f = true := by
+  obtain ⟨h1, _⟩ := domain_parts h
+  simp only [nameShapes, Bool.and_eq_true] at h1
+  exact methodsOk_genFile t f (memberGood_of_domain t h) (methFacts_of_domain t f h hf) (errField_of_domain t h)
+    h1.1 (tyNames_nodup t f (topFacts_of_domain t h) hf) hf
+
+/-- **no type of infinite size**: no declared type of the emitted file contains itself without a pointer, slice
+    or map in between, at EVERY fuel of the checker's search (a walk between declared types is a walk between
+    `type` members of the description, and a walk can be shortened to one without repeated nodes, so the
+    `members.length` steps `noDirectRecursion` of the domain looks ahead decide it); and no alias declaration
+    `type A = …` (emitted exactly for the types that resolve to `object`) refers to itself through alias
+    declarations: `resolvesToObject` follows the only edge out of such a declaration and ends at `object` -/
+theorem gen_noCycleOk (t : Idl) (f : GoFile) (h : Domain t = true) (hf : genFile t = some f) :
+    noCycleOk f = true :=
+  (cycleCtx_of_domain t f h hf).noCycleOk
+
+/-- **gen_wellformed**: the emitted file passes all nine sub-checks of `wellFormed`, for EVERY description of the
+    domain -/
+theorem gen_wellformed (t : Idl) (f : GoFile) (h : Domain t = true) (hf : genFile t = some f) :
+    wellFormed f = true :=
+  gen_wellformed_partial t f h hf (gen_namesResolve t f h hf) (gen_methodsOk t f h hf) (gen_noCycleOk t f h hf)
+
+/-- the full statement holds -/
+theorem fullStatement_holds : FullStatement := fun t f h hf => gen_wellformed t f h hf
+
+/-- non-vacuity: the sample (an alias, an optional, an array of structs, an error) is in the domain, the generator
+    produces a file for it, and that file is well-formed -/
+example : Domain sample = true ∧ ∃ f, genFile sample = some f ∧ wellFormed f = true := by
+  refine ⟨by decide, ?_⟩
+  obtain ⟨f, hf⟩ := genFile_total sample (by decide)
+  exact ⟨f, hf, gen_wellformed sample f (by decide) hf⟩
+
+/-- recursion through an optional, an alias chain to `object` (emitted as `type A = *B`, `type B = json.RawMessage`),
+    a self-referential pointer type and a method called `InvalidParameter` are inside the domain -/
+example :
+    let t : Idl := { name := str "a.b", doc := [], description := [], members := [
+      .alias (str "A") [] (.maybe (.named (str "B"))),
+      .alias (str "B") [] .object,
+      .alias (str "C") [] (.struct (.typed (str "next") (.maybe (.named (str "C"))) .nil)),
+      .alias (str "D") [] (.maybe (.named (str "D"))),
+      .method (str "InvalidParameter") [] (.struct (.typed (str "c") (.named (str "A")) .nil)) (.struct .nil),
+      .error (str "E") [] (some (.struct (.typed (str "why") (.named (str "C")) .nil)))] }
+    Domain t = true ∧ ∀ f, genFile t = some f → wellFormed f = true :=
+  ⟨by decide, fun f hf => gen_wellformed _ f (by decide) hf⟩
+
+/-- direct recursion is outside the domain (`type T (a: T)`: Go rejects `type T struct{ A T }`) -/
+example :
+    let t : Idl := { name := str "a.b", doc := [], description := [], members := [
+      .alias (str "T") [] (.struct (.typed (str "a") (.named (str "T")) .nil)),
+      .method (str "M") [] (.struct .nil) (.struct .nil)] }
+    Domain t = false ∧ outsideBecause t = some "direct-recursion" := by decide
 
 /-- the domain hypotheses of the partial theorem are satisfiable (`sample` uses an alias, an optional, an array of
     structs and an error); that the sample's file passes the three assumed sub-checks is evaluated by the compiled
